@@ -1,6 +1,7 @@
 """C05 - expressions over random values evaluate as in plain Python on the samples."""
 import collections
 import math
+import random
 
 from symx import engine as E
 from symx import models as M
@@ -84,13 +85,53 @@ def expression_corpus():
     return C
 
 
+
+# ------------------------------------------------------------------ generated expressions
+def gen_expression(rnd, integer):
+    """Source text of a random expression over x, y, z (operators with constants on either side, unary operators, tuple
+    construction and indexing, calls of a lifted function)."""
+    consts = ["0", "1", "2", "-1", "3"] if integer else ["0", "1", "2", "-1", "0.5", "1.0"]
+
+    def atom():
+        return rnd.choice(["x", "y", "z"]) if rnd.random() < 0.65 else rnd.choice(consts)
+
+    def expr(d):
+        k = rnd.random()
+        if d == 0 or k < 0.25:
+            return atom()
+        if k < 0.60:
+            return f"({expr(d - 1)} {rnd.choice(['+', '-', '*'])} {expr(d - 1)})"
+        if k < 0.70:
+            return f"({expr(d - 1)} {rnd.choice(['//', '%'])} {rnd.choice(['1', '2', '3'])})"
+        if k < 0.78:
+            return f"({expr(d - 1)} / {rnd.choice(['1', '2', '4'])})"
+        if k < 0.84:
+            return f"({expr(d - 1)} ** {rnd.choice(['1', '2'])})"
+        if k < 0.90:
+            return rnd.choice(["(-%s)", "abs(%s)", "(+%s)"]) % expr(d - 1)
+        if k < 0.95:
+            return f"({expr(d - 1)}, {expr(d - 1)})[{rnd.choice([0, 1])}]"
+        return f"LIFTED({expr(d - 1)}, {atom()})"
+
+    return "(" + ", ".join(expr(2) for _ in range(3)) + ")"
+
+
+def generated_expressions(seed, n):
+    rnd = random.Random(500 + seed)
+    out = {}
+    for i in range(n):
+        integer = rnd.random() < 0.4
+        out[f"generated[{seed}.{i}]{'[int]' if integer else ''}"] = (gen_expression(rnd, integer), integer)
+    return out
+
+
 def toD(t):
     from scenic.core.distributions import toDistribution
 
     return toDistribution(t)
 
 
-def h_forest(name, integer):
+def h_forest(name, integer, source=None):
     def h(ctx):
         from scenic.core.distributions import Samplable, needsSampling, toDistribution
 
@@ -106,7 +147,16 @@ def h_forest(name, integer):
             return s
 
         leaves = [Leaf(n, sampler(n), valueType=(int if integer else float)) for n in "xyz"]
-        expr = expression_corpus()[name]
+        if source is not None:
+            from scenic.core.distributions import distributionFunction
+
+            f2 = lambda a, b: 3 * a - b
+            lifted_f = distributionFunction(f2)
+            code = compile(source, "<generated expression>", "eval")
+            expr = lambda x, y, z: eval(code, {"LIFTED": lifted_f if any(hasattr(v, "sampleGiven") for v in (x, y, z)) else f2,
+                                               "abs": abs}, {"x": x, "y": y, "z": z})
+        else:
+            expr = expression_corpus()[name]
         lifted = toDistribution(expr(*leaves))
         sample = Samplable.sampleAll([lifted] if needsSampling(lifted) else [])
         got = sample[lifted] if needsSampling(lifted) else lifted
@@ -264,6 +314,11 @@ def obligations(tier, seed):
     for name in expression_corpus():
         integer = name in ("round-floordiv-mod",)
         obs.append(Obligation(f"forest[{name}]", h_forest(name, integer), f"lifted expression '{name}' == plain Python on samples",
+                              {"leaves": 3, "leaf values": "symbolic in [-4,4]"}, enc, ["leaf distributions with harness-supplied symbolic samples"], opts=o))
+    import os
+
+    for name, (src, integer) in generated_expressions(seed, int(os.environ.get("C05_GENERATED", "8" if tier == "quick" else "80"))).items():
+        obs.append(Obligation(f"forest[{name}]", h_forest(name, integer, src), f"lifted {src} == plain Python on samples (values and types)",
                               {"leaves": 3, "leaf values": "symbolic in [-4,4]"}, enc, ["leaf distributions with harness-supplied symbolic samples"], opts=o))
     obs.append(Obligation("lazy-operands", h_lazy_operands, "operator/call nodes with DelayedArgument operands (positional and keyword)",
                           {}, [D.OperatorDistribution.evaluateInner, D.OperatorDistribution.sampleGiven], [], opts=o))
